@@ -403,7 +403,32 @@ func stateGuards(w *World, g *Graph, subject func(e ast.Expr) bool) []stateGuard
 			continue
 		}
 		be, ok := n.Ast.(*ast.BinaryExpr)
-		if !ok || !subject(be.X) {
+		if !ok {
+			// a one-line predicate helper `func (t) stepX(f) bool { return <subject> OP f }` called with a
+			// step constant is the same guard (extract-helper refactoring)
+			if call, isCall := n.Ast.(*ast.CallExpr); isCall && len(call.Args) == 1 {
+				cf := w.CalleeFunc(w.resolveCall(g.F, call))
+				aid, isID := ast.Unparen(call.Args[0]).(*ast.Ident)
+				if cf != nil && cf.Decl != nil && isID && len(cf.Body.List) == 1 && cf.Decl.Type.Params.NumFields() == 1 {
+					if k, isConst := info.Uses[aid].(*types.Const); isConst {
+						if rs, isRet := cf.Body.List[0].(*ast.ReturnStmt); isRet && len(rs.Results) == 1 {
+							if hb, isBE := ast.Unparen(rs.Results[0]).(*ast.BinaryExpr); isBE {
+								hinfo := cf.Pkg.TypesInfo
+								par := cf.Obj.Type().(*types.Signature).Params().At(0)
+								if pid, isP := ast.Unparen(hb.Y).(*ast.Ident); isP && hinfo.Uses[pid] == types.Object(par) {
+									// subject is evaluated against the helper's own type info: compare by field object
+									if sel := fieldOfSelector(hinfo, hb.X); sel != nil && subjectField(subject, info, hinfo, hb.X) {
+										out = append(out, stateGuard{n, hb.Op, k})
+									}
+								}
+							}
+						}
+					}
+				}
+			}
+			continue
+		}
+		if !subject(be.X) {
 			continue
 		}
 		id, ok := ast.Unparen(be.Y).(*ast.Ident)
@@ -417,6 +442,17 @@ func stateGuards(w *World, g *Graph, subject func(e ast.Expr) bool) []stateGuard
 		out = append(out, stateGuard{n, be.Op, k})
 	}
 	return out
+}
+
+// subjectField: the helper's left operand denotes the same field the caller-side subject predicate
+// accepts. Subject predicates are closures over one types.Info; in the same package the field
+// objects are shared, so evaluating the predicate on the helper's expression is meaningful when the
+// predicate only looks at field objects (fieldOfSelector).
+func subjectField(subject func(e ast.Expr) bool, callerInfo, helperInfo *types.Info, e ast.Expr) bool {
+	if callerInfo != helperInfo {
+		return false
+	}
+	return subject(e)
 }
 
 func runC07(c *Ctx) {
